@@ -199,8 +199,8 @@ pub fn run(opts: &crate::engine::Opts) -> crate::engine::Report {
     let a = Partition { long: false, stress: false };
     let b = Partition { long: true, stress: false };
     crate::props::committed_replays(&a, opts, &mut rep);
-    run_sub(&a, opts, opts.tier.pick(6000, 120_000), &mut rep);
-    run_sub(&b, opts, opts.tier.pick(600, 12_000), &mut rep);
+    run_sub(&a, opts, opts.tier.pick(20_000, 240_000), &mut rep);
+    run_sub(&b, opts, opts.tier.pick(2000, 24_000), &mut rep);
     // stress sentences of ~20 000 characters (accumulated cost stays inside i32: |cost| per step
     // ≤ 65 534 in the generated cost regimes); a small sample in the quick tier keeps the path alive
     let c = Partition { long: true, stress: true };
